@@ -42,8 +42,8 @@ prop('C03', units=['bk'], level='proof',
      not_covered=['identity is proved in exact arithmetic; accumulated Decimal rounding is not modelled'],
      witnesses=[])
 
-prop('C04', units=['bk', 'agg', 'drv', 'rnd'], level='proof',
-     technique='Verus: type invariant of ConstrainedDecimal (>= 0), sum invariant wf() of the affiliate status table, delta_for_tx Err <==> step_reject, prefix invariant of the ledger (the partial ledger of a rejected security is a prefix of a correct one), gains table over exactly the accepted ledgers, driver: an error stays with its security; run_acb_app_to_render_model: the table of a rejected security carries its rejection message; write_render_result: every security\'s table is handed to the writer (trait AcbWriter with a ghost log of what was printed); witnesses for message visibility in the writers',
+prop('C04', units=['bk', 'agg', 'drv', 'rnd', 'wr'], level='proof',
+     technique='Verus: type invariant of ConstrainedDecimal (>= 0), sum invariant wf() of the affiliate status table, delta_for_tx Err <==> step_reject, prefix invariant of the ledger (the partial ledger of a rejected security is a prefix of a correct one), gains table over exactly the accepted ledgers, driver: an error stays with its security; run_acb_app_to_render_model: the table of a rejected security carries its rejection message; write_render_result: every security\'s table is handed to the writer (trait AcbWriter with a ghost log of what was printed); witnesses for message visibility in the writers; CsvWriter::print_render_table (unit wr, the writer behind --csv-output-dir): what is written for a table is its header, its rows in order, the footer if any, one record per note and one record per error ("[!] " + message, first column) -- the rejection message of a security is part of its file (defect D5)',
      level_text='Deductive proof (Verus) of non-negativity, all-affiliate total = sum, registered => no cost base/gain, rejection iff impossible (model E), correct prefix before an error, exclusion of a rejected security from every gains total, that the rejection message is attached to that security\'s table in the render model, and that every table is handed to the output writer. How the two writers print a table (text / CSV) is outside contracts and watched by witness D5.',
      level_note=BK_NOTE + ' D13 (rounded split factor) is invisible to model E and guarded by its witness only.',
      not_covered=['TextWriter / CsvWriter: printing of the errors of a table (tabled / csv crates; witness D5)', 'rounded-factor acceptance (D13, witness only)'],
@@ -161,3 +161,4 @@ ALL_UNITS.append('smd')
 ALL_UNITS.append('qt')
 ALL_UNITS.append('xlr')
 ALL_UNITS.append('xc')
+ALL_UNITS.append('wr')
